@@ -1,4 +1,5 @@
 """C11 — JSON keys survive renaming: distinct keys give distinct, recoverable fields."""
+import copy
 import re
 
 from .. import common, names
@@ -56,14 +57,29 @@ def run(chk, build):
     for i in range(150 if chk.tier == "quick" else 5000):
         keys = [names.random_key(r) for _ in range(6)] if r.random() < 0.4 else None
         g = MetadataGenerator(impl.make_registry())
-        reg = ModelRegistry(*impl.make_cmp(r.choice([None, [("exact",)], [("number", 2)], [("percent", 0.5)]])))
         rootnames = r.sample(["Root", "Item", "Items", "Value", "User", "A", "Order", "Child", "Name"], r.choice([1, 1, 2, 3]))
         ss = []
+        spec = r.choice([None, [("exact",)], [("number", 2)], [("percent", 0.5)]])
+        reg = ModelRegistry(*impl.make_cmp(spec))
         try:
-            for rn in rootnames:
-                s = genmod.Gen(r.randrange(10 ** 9), keys=keys).samples(depth=3)
-                ss.append(s)
-                reg.process_meta_data(g.generate(*s), rn)
+            if i == 0:      # corpus: D33 (fixed)
+                rootnames, ss = ["A", "A_1B"], [[{"a": {"x": 1}}], [{"y": "s"}]]
+            else:
+                ss = [genmod.Gen(r.randrange(10 ** 9), keys=keys).samples(depth=3) for _ in rootnames]
+                if r.random() < 0.5:
+                    # a further root explicitly named like a de-duplicated model of a first run: <name>_<index> (D33)
+                    reg0 = ModelRegistry(*impl.make_cmp(spec))
+                    g0 = MetadataGenerator(impl.make_registry())
+                    for rn, s in zip(rootnames, ss):
+                        reg0.process_meta_data(g0.generate(*copy.deepcopy(s)), rn)
+                    reg0.merge_models(g0)
+                    reg0.generate_names()
+                    cands = [m.name for m in reg0.models if m.is_name_generated and m.name and m.name.endswith("_" + m.index)]
+                    if cands:
+                        rootnames = rootnames + [r.choice(cands)]
+                        ss.append(genmod.Gen(r.randrange(10 ** 9), keys=keys).samples(depth=2))
+            for rn, s in zip(rootnames, ss):
+                reg.process_meta_data(g.generate(*copy.deepcopy(s)), rn)
             reg.merge_models(g)
             gterms.append(emitcase.gennames_case(reg))
             gmeta.append({"roots": [[n, x] for n, x in zip(rootnames, ss)]})
